@@ -19,8 +19,15 @@ class Expect:
 
 
 def regroup(m: AclM) -> None:
+    """Blocks are rebuilt from the flat list; a rebuilt block that starts with the same entry as
+    an existing block is that block (keeps its own sequence number)."""
     if m.group_by:
+        old = {id(b.rules[0]): b for b in m.blocks if b.grouped and b.rules}
         m.blocks = group_blocks(m.flat(), m.group_by)
+        for b in m.blocks:
+            ob = old.get(id(b.rules[0]))
+            if ob is not None:
+                b.seq = ob.seq
 
 
 def flat_leaves(m: AclM) -> None:
@@ -237,10 +244,8 @@ def apply_model(m: AclM, op: dict) -> Expect:  # noqa: C901
                     if a.group:
                         a.members = ()
             r.note = ""
-        if m.group_by:
-            regroup(m)
-        else:
-            flat_leaves(m)
+        flat_leaves(m)  # new entries: no block identity survives a re-parse
+        regroup(m)
         return Expect(m)
     if k in ("copy", "export_import"):
         regroup(m)
